@@ -30,6 +30,30 @@ def _locals(fn: ast.AST) -> Dict[str, str]:
     return out
 
 
+def _resolved_returns(fn: ast.AST) -> List[Tuple[str, ast.Return]]:
+    """Shapes of the returned templates with local f-string variables inlined."""
+    local_tpl: Dict[str, str] = {}
+    params = {a.arg for a in fn.args.args} if isinstance(fn, ast.FunctionDef) else set()
+    for n in ast.walk(fn):
+        if isinstance(n, ast.Assign) and len(n.targets) == 1 and isinstance(n.targets[0], ast.Name) and isinstance(n.value, ast.JoinedStr) and n.targets[0].id not in params:
+            local_tpl.setdefault(n.targets[0].id, _fstring_shape(n.value))
+    out = []
+    for r in ast.walk(fn):
+        if isinstance(r, ast.Return) and r.value is not None:
+            v = r.value
+            if isinstance(v, ast.Name) and v.id in local_tpl:
+                shape = local_tpl[v.id]
+            elif isinstance(v, ast.JoinedStr):
+                shape = _fstring_shape(v)
+            else:
+                continue
+            for _ in range(3):
+                for k, t in local_tpl.items():
+                    shape = shape.replace("{" + k + "}", t)
+            out.append((shape, r))
+    return out
+
+
 ITEMS = [
     # (file, qualname, part, regex over one f-string shape, expected holes, extra local provenance)
     (CF, "CFormatter._format_op_mode_encoder_item_le", "c-le",
@@ -68,16 +92,27 @@ def d2(repo: Repo) -> RuleResult:
         if params != ["self", "chain", "t", "si", "fi", "shift", "mask", "r"]:
             res.unsure(f"D2: {qual}: parameter list is {params}")
             continue
-        shapes = _shapes(fi.node)
+        shapes = [sh for sh, _ in _resolved_returns(fi.node)] or _shapes(fi.node)
         hit = None
+        others = []
         for s in shapes:
             mm = re.match(rx, s)
             if mm:
                 hit = (s, list(mm.groups()))
+            else:
+                others.append(s)
         res.inst(part=part, function=qual, template=hit[0] if hit else shapes)
+        unmasked = [s for s in others if ("& {mask}" not in s) and ("s[{" in s or "{chain}" in s)]
+        for s in unmasked:
+            r0 = next((r for sh, r in _resolved_returns(fi.node) if sh == s), None)
+            conds = sorted(("" if t else "not ") + src_of(e) for e, t in facts_at(r0, fi.node)) if r0 is not None else []
+            bad(part, fi, "unmasked", f"under {conds or 'some condition'} the statement `{s}` is emitted without `& mask`: the chunk is not limited to its c bits, so an out-of-range value (or sign bits) reaches the next field's bits or the padding", construct=s, witness="a byte-aligned field whose width is not a multiple of 8 holding an out-of-range value, with -O")
         if hit is None:
-            res.unsure(f"D2: {qual}: statement template not in the enumerated form: {shapes}")
+            if not unmasked:
+                res.unsure(f"D2: {qual}: statement template not in the enumerated form: {shapes}")
             continue
+        if [s for s in others if s not in unmasked]:
+            res.unsure(f"D2: {qual}: additional statement templates outside the enumerated form: {[s for s in others if s not in unmasked]}")
         got = hit[1]
         if got != holes:
             wrong = [(g, h) for g, h in zip(got, holes) if g != h]
